@@ -137,6 +137,31 @@ def run(ctx):
     ctx.floor("R-C02-4", 3 * 25 + 12)
 
 
+def _constructor_battery(ctx, fi, L, want):
+    import itertools
+    names = [L + "#" * k for k in range(0, 9)] + [L + "b" * k for k in range(1, 9)]
+    names += [L + "".join(t) for k in (2, 3) for t in itertools.product("#b", repeat=k) if len(set(t)) == 2]
+    target = LETTERS[(LETTERS.index(L) + want[0]) % 7]
+    bad = []
+    for name in names:
+        try:
+            paths = paths_of(ctx.repo, fi, [name], max_depth=40)
+        except CannotDecide as e:
+            raise AnalysisError("%s(%r): %s" % (fi.qualname, name, e))
+        if len(paths) != 1 or paths[0].kind != "return" or not isinstance(paths[0].value, str) or not paths[0].value:
+            bad.append("%s(%r) gives %s" % (fi.qualname, name, [(p.kind, p.value) for p in paths]))
+            continue
+        r = paths[0].value
+        dist = (NAT[r[0]] + r.count("#") - r.count("b") - (NAT[L] + name.count("#") - name.count("b"))) % 12 if r[0] in NAT else None
+        if r[0] != target or set(r[1:]) - {"#", "b"}:
+            bad.append("%s(%r) == %r: not the letter %s followed by signs" % (fi.qualname, name, r, target))
+        elif dist != want[1] % 12:
+            bad.append("%s(%r) == %r lies %s semitones above, expected %d" % (fi.qualname, name, r, dist, want[1] % 12))
+        elif len(r) - 1 > 6 or len(set(r[1:])) > 1:
+            bad.append("%s(%r) == %r: more than six signs, or sharps and flats mixed" % (fi.qualname, name, r))
+    return bad, len(names)
+
+
 def rule_constructors(ctx, mod):
     R = "R-C02-1"
     for name, want in sorted(ORACLE.items()):
@@ -147,7 +172,13 @@ def rule_constructors(ctx, mod):
             try:
                 got = constructor_summary(ctx.repo, fi, L, run)
             except CannotDecide as e:
-                raise AnalysisError("constructor %s on letter %s: %s" % (name, L, e))
+                # the constructor does more than hand the target letter to the correction helper: no summary; it is run,
+                # with the real helper, on the spellings of this letter (0..8 sharps, 1..8 flats, mixtures up to three
+                # signs) and its answers are judged one by one
+                bad, n = _constructor_battery(ctx, fi, L, want)
+                ctx.check(not bad, R, "%s[%s]" % (name, L), fi.where(), "%s on %d spellings of %s (no summary: %s)" % (name, n, L, short(str(e), 60)),
+                          "%d answers are not the interval: e.g. %s" % (len(bad), bad[:2]))
+                continue
             w = (want[0], want[1] % 12)
             got = [(g[0], g[1] % 12) if isinstance(g[1], int) else g for g in got]
             ok = bool(got) and all(g == w for g in got)
